@@ -136,6 +136,18 @@ class Nested:
     i = h.Param(dtype=h.Instantiable, desc="module-valued", default_factory=h.primitives.Mos)
 
 
+@h.paramclass
+class Sc:
+    v = h.Param(dtype=h.Scalar, desc="a Scalar: equal numbers can be written in many ways")
+
+
+@h.generator
+def SG(p: Sc) -> h.Module:
+    m = h.Module()
+    m.x = h.Port()
+    return m
+
+
 def _gens():
     @h.generator
     def G(p: GP) -> h.Module:
@@ -193,6 +205,12 @@ def _memo(a1, a2, form, sx):
         n2 = N(Nested(g=GP(a=a2, s=s2), p=1 * h.prefix.m if not sx else 1000 * h.prefix.µ))
         m1, m2 = n1.i.of, n2.i.of
         if (n1.name == n2.name) != (n1 is n2):
+            return False
+        # 1*m and 1000*u are equal parameter values: equal parameters => the identical module
+        if (a1, s1) == (a2, s2) and n1 is not n2:
+            return False
+        sc1, sc2 = Sc(v=1000), Sc(v=1 * h.prefix.K if sx else "1e3")
+        if sc1 == sc2 and SG(sc1) is not SG(sc2):
             return False
     env.reached()
     equal = (a1, s1) == (a2, s2)
